@@ -106,6 +106,9 @@ struct upipe_ts_pese {
     /** duration of the upcoming PES */
     uint64_t next_pes_duration;
 
+    /** true if the pipe holds a reference on itself while urefs are buffered */
+    bool buffered;
+
     /** public upipe structure */
     struct upipe upipe;
 };
@@ -143,6 +146,7 @@ static struct upipe *upipe_ts_pese_alloc(struct upipe_mgr *mgr,
     upipe_ts_pese_init_ubuf_mgr(upipe);
     upipe_ts_pese_init_output(upipe);
     upipe_ts_pese_init_input(upipe);
+    upipe_ts_pese_from_upipe(upipe)->buffered = false;
     upipe_ts_pese->input_latency = 0;
     upipe_ts_pese->pes_id = 0;
     upipe_ts_pese->pes_header_size = 0;
@@ -314,7 +318,10 @@ static void upipe_ts_pese_input(struct upipe *upipe, struct uref *uref,
         upipe_ts_pese_block_input(upipe, upump_p);
         /* Increment upipe refcount to avoid disappearing before all packets
          * have been sent. */
-        upipe_use(upipe);
+        if (!upipe_ts_pese_from_upipe(upipe)->buffered) {
+            upipe_ts_pese_from_upipe(upipe)->buffered = true;
+            upipe_use(upipe);
+        }
     }
 }
 
@@ -333,14 +340,21 @@ static int upipe_ts_pese_check(struct upipe *upipe, struct uref *flow_format)
     if (upipe_ts_pese->flow_def == NULL)
         return UBASE_ERR_NONE;
 
-    bool was_buffered = !upipe_ts_pese_check_input(upipe);
+    /* The ubuf manager provider may answer from inside
+     * upipe_ts_pese_output_input (a buffered flow definition renews the
+     * request), which runs this function again: keep the pipe until we are
+     * done, and release the reference of upipe_ts_pese_input only once. */
+    upipe_use(upipe);
     upipe_ts_pese_output_input(upipe);
     upipe_ts_pese_unblock_input(upipe);
-    if (was_buffered && upipe_ts_pese_check_input(upipe)) {
+    if (upipe_ts_pese_from_upipe(upipe)->buffered &&
+        upipe_ts_pese_check_input(upipe)) {
         /* All packets have been output, release again the pipe that has been
          * used in @ref upipe_ts_pese_input. */
+        upipe_ts_pese_from_upipe(upipe)->buffered = false;
         upipe_release(upipe);
     }
+    upipe_release(upipe);
     return UBASE_ERR_NONE;
 }
 
